@@ -32,6 +32,12 @@ Trusted / assumed here (engine.io is a dependency, not under test): the transpor
 and hands MESSAGE payloads to socketio's handler one at a time in order; exceptions raised by
 socketio's handler are contained by engine.io (recorded here as 'escaped', never swallowed).
 
+Delivery budgets (`budget[d]`, late acknowledgements): the number of frames of direction d that may
+still be delivered during the current operation (None = no limit).  Frames that are not
+delivered stay in flight, in order, and are delivered during a later operation (inside the wait()
+of a later call(), or when a later API call has returned): this is how a call() times out while
+its ACK is on the way and how that ACK arrives late, interleaved with later emits / calls.
+
 What is recorded (per direction 'c2s' / 's2c'):
   wire[d]   socket.io-level payloads handed to engine.io by the sender, in order
   jtab[d]   every json.loads call of the receiver (text, ok, result|exception name)
@@ -41,6 +47,13 @@ What is recorded (per direction 'c2s' / 's2c'):
             _handle_event / _handle_ack (with async_handlers=True the server runs the handler
             later, in a task / thread of its own; the list is in order of invocation)
   escaped   exceptions that left socketio's engine.io handlers
+  tl[d]     the timeline of the acknowledgement registry of the SENDER of direction d (client for
+            'c2s', server for 's2c'), in the order things happened:
+            ['reg', op, ns, id]              _generate_ack_id returned id while operation op was issued
+            ['ack', ns, id, args, fired]     an ACK reached _handle_ack; fired = [('user', op, args) |
+                                             ('call', op)] callbacks invoked while it was handled
+            ['end', op, result]              the call() of operation op returned / raised
+            ['stray', ...]                   a callback invoked outside any ACK dispatch (never happens)
 """
 import asyncio
 import collections
@@ -78,12 +91,16 @@ class PumpEvent:
     """threading.Event / asyncio.Event stand-in whose wait() lets the loopback run: the thread
     (task) that would deliver the peer's answer while the caller waits is the caller itself."""
 
-    def __init__(self, loop):
+    def __init__(self, loop, side=None):
         self.loop = loop
         self.flag = False
+        self.side = side                    # whose registry: 'c2s' = the client's, 's2c' = the server's
+        self.op = loop.issuing if side else None
 
     def set(self):
         self.flag = True
+        if self.op is not None:
+            self.loop.fired(self.side, ('call', self.op))
 
     def clear(self):
         self.flag = False
@@ -155,7 +172,7 @@ class LoopEio:
         self.state = 'disconnected'
 
     def create_event(self, *a, **k):
-        return PumpEvent(self.loop)
+        return PumpEvent(self.loop, 'c2s')
 
     def start_background_task(self, target, *args, **kwargs):
         if self.loop.is_async:
@@ -195,6 +212,10 @@ class Loopback:
         self.outq = {'c2s': [], 's2c': []}          # engine.io packets waiting for a flush
         self.cur_id = {'c2s': [], 's2c': []}        # (ack id, dispatch number) of the event being handled (stack)
         self.seq = 0                                # dispatch counter of the receive loops
+        self.budget = {'c2s': None, 's2c': None}    # frames that may still be delivered (None = no limit)
+        self.tl = {'c2s': [], 's2c': []}            # registry timeline of the sender of each direction
+        self.ack_stack = {'c2s': [], 's2c': []}     # ACK dispatches in progress
+        self.issuing = None                         # operation whose API call is running
         self.dispatched = {}                        # id(data list) -> dispatch number (server, c2s)
         log = _null_logger()
         kw = dict(async_handlers=async_handlers, serializer=serializer, logger=log, engineio_logger=log,
@@ -212,7 +233,7 @@ class Loopback:
             # handlers started "in the background" run inline: no threads, deterministic
             self.sio.eio.start_background_task = self._inline_task
         self.sio.eio.generate_id = lambda: 'S-should-not-be-used'
-        self.sio.eio.create_event = lambda *a, **k: PumpEvent(self)
+        self.sio.eio.create_event = lambda *a, **k: PumpEvent(self, 's2c')
         self._sid_counter = 0
         self.sio.manager  # noqa: B018  (created by the constructor)
         self.eio = LoopEio(self)
@@ -228,6 +249,31 @@ class Loopback:
     def next_seq(self):
         self.seq += 1
         return self.seq
+
+    def fired(self, side, what):
+        """A callback of `side`'s registry was invoked (user callback or the closure of a call())."""
+        if self.ack_stack[side]:
+            self.ack_stack[side][-1][4].append(what)
+        else:
+            self.tl[side].append(['stray', what])
+
+    def _ns_of_sid(self, sid):
+        for ns, s in self.client.namespaces.items():
+            if s == sid:
+                return ns
+        return '<sid %r>' % (sid,)
+
+    def _allow(self, direction):
+        b = self.budget[direction]
+        if b is None:
+            return True
+        if b > 0:
+            self.budget[direction] = b - 1
+            return True
+        return False
+
+    def _ready(self, direction):
+        return bool(self.outq[direction] or self.inflight[direction]) and self.budget[direction] != 0
 
     def _inline_task(self, target, *args, **kwargs):
         target(*args, **kwargs)
@@ -289,7 +335,13 @@ class Loopback:
 
             async def s_ack_w(eio_sid, namespace, id, data):
                 loop.rx['c2s'].append(('ack', namespace or '/', id, _args(data), loop.next_seq()))
-                return await s_ack(eio_sid, namespace, id, data)
+                rec = ['ack', namespace or '/', id, _args(data), []]
+                loop.tl['s2c'].append(rec)
+                loop.ack_stack['s2c'].append(rec)
+                try:
+                    return await s_ack(eio_sid, namespace, id, data)
+                finally:
+                    loop.ack_stack['s2c'].pop()
 
             async def c_event_w(namespace, id, data):
                 loop.cur_id['s2c'].append((id, loop.next_seq()))
@@ -300,7 +352,13 @@ class Loopback:
 
             async def c_ack_w(namespace, id, data):
                 loop.rx['s2c'].append(('ack', namespace or '/', id, _args(data), loop.next_seq()))
-                return await c_ack(namespace, id, data)
+                rec = ['ack', namespace or '/', id, _args(data), []]
+                loop.tl['c2s'].append(rec)
+                loop.ack_stack['c2s'].append(rec)
+                try:
+                    return await c_ack(namespace, id, data)
+                finally:
+                    loop.ack_stack['c2s'].pop()
         else:
             def s_event_w(eio_sid, namespace, id, data):
                 loop.dispatched[_pyid(data)] = loop.next_seq()
@@ -315,7 +373,13 @@ class Loopback:
 
             def s_ack_w(eio_sid, namespace, id, data):
                 loop.rx['c2s'].append(('ack', namespace or '/', id, _args(data), loop.next_seq()))
-                return s_ack(eio_sid, namespace, id, data)
+                rec = ['ack', namespace or '/', id, _args(data), []]
+                loop.tl['s2c'].append(rec)
+                loop.ack_stack['s2c'].append(rec)
+                try:
+                    return s_ack(eio_sid, namespace, id, data)
+                finally:
+                    loop.ack_stack['s2c'].pop()
 
             def c_event_w(namespace, id, data):
                 loop.cur_id['s2c'].append((id, loop.next_seq()))
@@ -326,7 +390,13 @@ class Loopback:
 
             def c_ack_w(namespace, id, data):
                 loop.rx['s2c'].append(('ack', namespace or '/', id, _args(data), loop.next_seq()))
-                return c_ack(namespace, id, data)
+                rec = ['ack', namespace or '/', id, _args(data), []]
+                loop.tl['c2s'].append(rec)
+                loop.ack_stack['c2s'].append(rec)
+                try:
+                    return c_ack(namespace, id, data)
+                finally:
+                    loop.ack_stack['c2s'].pop()
         sio._handle_event_internal = s_internal_w
         sio._handle_event = s_event_w
         sio._handle_ack = s_ack_w
@@ -339,12 +409,14 @@ class Loopback:
 
         def c_gen_w(namespace, callback):
             i = c_gen(namespace, callback)
+            loop.tl['c2s'].append(['reg', loop.issuing, namespace or '/', i])
             if loop.id_hook['c2s']:
                 loop.id_hook['c2s'](i)
             return i
 
         def m_gen_w(sid, callback):
             i = m_gen(sid, callback)
+            loop.tl['s2c'].append(['reg', loop.issuing, loop._ns_of_sid(sid), i])
             if loop.id_hook['s2c']:
                 loop.id_hook['s2c'](i)
             return i
@@ -432,6 +504,8 @@ class Loopback:
                 if not self.outq[direction]:
                     return
                 self._refill(direction)
+            if not self._allow(direction):
+                return
             self.nested_deliveries += 1
             await self._deliver_one(direction)
 
@@ -445,15 +519,15 @@ class Loopback:
             for _ in range(10000):
                 busy = False
                 for direction in (self.first, 's2c' if self.first == 'c2s' else 'c2s'):
-                    if not self.outq[direction] and not self.inflight[direction]:
-                        continue
+                    if not self._ready(direction):
+                        continue                # nothing to deliver, or held back (budget used up)
                     busy = True
                     if self.outq[direction]:
                         self._refill(direction)
-                    while self.inflight[direction]:
+                    while self.inflight[direction] and self._allow(direction):
                         await self._deliver_one(direction)
                 await self.settle()
-                if not busy and not self.outq['c2s'] and not self.outq['s2c']:
+                if not busy and not self._ready('c2s') and not self._ready('s2c'):
                     return
             self.escaped.append(('loop', 'OtherError', 'pump did not terminate'))
         finally:
@@ -559,15 +633,17 @@ class Loopback:
     def server_sid(self, namespace):
         return self.client.namespaces[namespace]
 
-    async def api(self, fn, *a, _flush=True, **k):
+    async def api(self, fn, *a, _flush=True, _after=None, **k):
         """Run one application API call (emit/send/call on either side); returns ('ok', value)
         or ('raise', exception name).  With _flush=False what the call queued stays queued
-        (until the next pump)."""
+        (until the next pump).  _after(result) runs when the call has returned, before the flush."""
         try:
             r = await aw(fn(*a, **k))
             res = ('ok', r)
         except BaseException as e:      # noqa: B902
             res = ('raise', coqio.exn_name(e), repr(e)[:200])
+        if _after is not None:
+            _after(res)
         if _flush:
             await self.pump()
         return res
